@@ -65,43 +65,10 @@ Proof. intros H. destruct (parent_spec i H); lia. Qed.
 (* ------------------------------------------------------------------ *)
 (* A. heapq                                                            *)
 (* ------------------------------------------------------------------ *)
-Section HeapFacts.
+Section HeapBasic.
 Variable lt : qitem -> qitem -> bool.
 Variable dflt : qitem.
-(* the elements the order is well behaved on *)
-Variable P : qitem -> Prop.
-Hypothesis lt_asym : forall a b, P a -> P b -> lt a b = true -> lt b a = false.
-Hypothesis le_trans : forall a b c, P a -> P b -> P c -> lt b a = false -> lt c b = false -> lt c a = false.
-
 Notation get h i := (nth i h dflt).
-Notation le a b := (lt b a = false).
-
-Lemma le_refl a : P a -> le a a.
-Proof. intros Ha. destruct (lt a a) eqn:E; auto. pose proof (lt_asym a a Ha Ha E). congruence. Qed.
-
-(* the heap invariant of heapq: no element is smaller than its parent *)
-Definition heap (h : list qitem) : Prop :=
-  forall i, (0 < i)%nat -> (i < length h)%nat -> lt (get h i) (get h (parent i)) = false.
-
-(* heap with a hole at pos that is about to receive x (the state of _siftdown) *)
-Definition hole_inv (h : list qitem) (pos : nat) (x : qitem) : Prop :=
-  (pos < length h)%nat /\
-  (forall i, (0 < i)%nat -> (i < length h)%nat -> i <> pos -> parent i <> pos -> le (get h (parent i)) (get h i)) /\
-  (forall i, (0 < i)%nat -> (i < length h)%nat -> parent i = pos -> (0 < pos)%nat -> le (get h (parent pos)) (get h i)) /\
-  (forall i, (0 < i)%nat -> (i < length h)%nat -> parent i = pos -> le x (get h i)).
-
-Lemma lset_heap h pos x :
-  hole_inv h pos x -> (pos = 0%nat \/ le (get h (parent pos)) x) -> heap (lset h pos x).
-Proof.
-  intros (Hp & H2 & H3 & H4) Hx i Hi0 Hi. rewrite length_lset in Hi.
-  destruct (Nat.eq_dec i pos) as [->|Hne].
-  - rewrite nth_lset_eq by auto. pose proof (parent_lt pos Hi0).
-    rewrite nth_lset_neq by lia. destruct Hx; [lia|auto].
-  - rewrite (nth_lset_neq h pos i) by auto.
-    destruct (Nat.eq_dec (parent i) pos) as [E|E].
-    + rewrite E, nth_lset_eq by auto. apply H4; auto.
-    + rewrite nth_lset_neq by auto. apply H2; auto.
-Qed.
 
 Lemma siftdown_length fuel : forall h sp pos x, length (siftdown lt dflt fuel h sp pos x) = length h.
 Proof.
@@ -109,49 +76,6 @@ Proof.
   destruct (Nat.ltb sp pos); [|apply length_lset].
   destruct (lt x _); [|apply length_lset].
   rewrite IHfuel, length_lset; auto.
-Qed.
-
-Lemma siftdown_heap fuel : forall h pos x,
-  (pos <= fuel)%nat -> Forall P h -> P x -> hole_inv h pos x ->
-  heap (siftdown lt dflt fuel h 0 pos x).
-Proof.
-  induction fuel; intros h pos x Hf HP Hx Hinv; simpl.
-  - apply lset_heap; auto. left; lia.
-  - destruct (Nat.ltb_spec 0 pos) as [Hpos|Hpos]; [|apply lset_heap; auto; left; lia].
-    unfold hget. fold (parent pos).
-    destruct (lt x (get h (parent pos))) eqn:Elt; [|apply lset_heap; auto].
-    pose proof (parent_lt pos Hpos) as Hpp.
-    destruct Hinv as (Hp & H2 & H3 & H4).
-    assert (Ppp : P (get h (parent pos))) by (apply Forall_nth_lt; auto; lia).
-    assert (Hle : le x (get h (parent pos))) by (apply lt_asym; auto).
-    apply IHfuel; [lia|apply Forall_lset; auto|auto|].
-    set (pp := parent pos) in *.
-    assert (Hg : forall j, j <> pos -> get (lset h pos (get h pp)) j = get h j)
-      by (intros; apply nth_lset_neq; auto).
-    assert (Hgp : get (lset h pos (get h pp)) pos = get h pp) by (apply nth_lset_eq; auto).
-    repeat split; rewrite ?length_lset.
-    + lia.
-    + intros i Hi0 Hi Hne1 Hne2.
-      assert (i <> pos) by (intros ->; apply Hne2; reflexivity).
-      rewrite (Hg i) by auto.
-      destruct (Nat.eq_dec (parent i) pos) as [E|E].
-      * rewrite E, Hgp. apply H3; auto.
-      * rewrite Hg by auto. apply H2; auto.
-    + intros i Hi0 Hi Hpi Hpp0.
-      pose proof (parent_lt pp Hpp0) as Hppp.
-      rewrite (Hg (parent pp)) by lia.
-      assert (Hedge : le (get h (parent pp)) (get h pp)) by (apply H2; lia).
-      destruct (Nat.eq_dec i pos) as [->|Hne].
-      * rewrite Hgp. exact Hedge.
-      * rewrite Hg by auto.
-        apply le_trans with (b := get h pp); auto; try (apply Forall_nth_lt; auto; lia).
-        rewrite <- Hpi. apply H2; auto. lia.
-    + intros i Hi0 Hi Hpi.
-      destruct (Nat.eq_dec i pos) as [->|Hne].
-      * rewrite Hgp. exact Hle.
-      * rewrite Hg by auto.
-        apply le_trans with (b := get h pp); auto; try (apply Forall_nth_lt; auto; lia).
-        rewrite <- Hpi. apply H2; auto. lia.
 Qed.
 
 Lemma siftdown_perm fuel : forall h sp pos x,
@@ -176,15 +100,6 @@ Proof.
   apply perm_swap.
 Qed.
 
-Lemma siftdown_Forall fuel : forall h sp pos x,
-  Forall P h -> P x -> (pos < length h)%nat -> Forall P (siftdown lt dflt fuel h sp pos x).
-Proof.
-  intros h sp pos x Hh Hx Hp.
-  pose proof (siftdown_perm fuel h sp pos x Hp) as Hperm.
-  assert (F : Forall P (x :: h)) by (constructor; auto).
-  apply (Permutation_Forall (Permutation_sym Hperm)) in F. inversion F; auto.
-Qed.
-
 (* ---- heappush ---- *)
 Lemma heappush_length h x : length (heappush lt dflt h x) = S (length h).
 Proof. unfold heappush. rewrite siftdown_length, app_length; simpl; lia. Qed.
@@ -199,26 +114,6 @@ Proof.
   eapply perm_trans; [rewrite app_length; simpl; exact H|].
   apply Permutation_sym, Permutation_cons_append.
 Qed.
-
-Lemma heappush_heap h x : Forall P h -> P x -> heap h -> heap (heappush lt dflt h x).
-Proof.
-  intros Hh Hx Hheap. unfold heappush. apply siftdown_heap; auto.
-  - rewrite app_length; simpl; lia.
-  - apply Forall_app; split; auto.
-  - assert (Hlen : length (h ++ [x]) = S (length h)) by (rewrite app_length; simpl; lia).
-    repeat split; rewrite ?Hlen.
-    + lia.
-    + intros i Hi0 Hi Hne _. pose proof (parent_lt i Hi0).
-      rewrite !app_nth1 by lia. apply Hheap; lia.
-    + intros i Hi0 Hi Hpi _. pose proof (parent_lt i Hi0). lia.
-    + intros i Hi0 Hi Hpi. pose proof (parent_lt i Hi0). lia.
-Qed.
-
-(* ---- _siftup: the hole travels down to a leaf ---- *)
-Definition down_inv (h : list qitem) (pos : nat) : Prop :=
-  (pos < length h)%nat /\
-  (forall i, (0 < i)%nat -> (i < length h)%nat -> i <> pos -> parent i <> pos -> le (get h (parent i)) (get h i)) /\
-  (forall i, (0 < i)%nat -> (i < length h)%nat -> parent i = pos -> (0 < pos)%nat -> le (get h (parent pos)) (get h i)).
 
 Lemma siftup_loop_basic fuel : forall h n pos h' p,
   length h = n -> (pos < n)%nat ->
@@ -264,6 +159,170 @@ Proof.
   eapply perm_trans; [exact L|]. exact Perm.
 Qed.
 
+Lemma heappop_none h : heappop lt dflt h = None <-> h = [].
+Proof.
+  unfold heappop. split.
+  - destruct (rev h) as [|l r] eqn:E.
+    + intros _. apply (f_equal (@rev _)) in E. rewrite rev_involutive in E. exact E.
+    + destruct (rev r); discriminate.
+  - intros ->. reflexivity.
+Qed.
+
+Lemma heappop_cases h x h' :
+  heappop lt dflt h = Some (x, h') ->
+  (h = [x] /\ h' = []) \/
+  (exists tl last, h = x :: tl ++ [last] /\ h' = siftup lt dflt (last :: tl) 0).
+Proof.
+  unfold heappop. destruct (rev h) as [|l r] eqn:E; [discriminate|].
+  apply (f_equal (@rev _)) in E. rewrite rev_involutive in E. simpl in E.
+  destruct (rev r) as [|top tl] eqn:Er; intros H; inversion H; subst.
+  - left. auto.
+  - right. exists tl, l. auto.
+Qed.
+
+Lemma heappop_perm h x h' : heappop lt dflt h = Some (x, h') -> Permutation h (x :: h').
+Proof.
+  intros H. apply heappop_cases in H. destruct H as [(-> & ->)|(tl & last & -> & ->)]; [auto|].
+  apply perm_skip.
+  eapply perm_trans; [apply Permutation_sym, Permutation_cons_append|].
+  apply Permutation_sym, siftup_perm. simpl; lia.
+Qed.
+
+(* ---- pushing a sequence, draining the heap ---- *)
+Definition push_all (h : list qitem) (xs : list qitem) : list qitem := fold_left (heappush lt dflt) xs h.
+
+Fixpoint drain (fuel : nat) (h : list qitem) : list qitem :=
+  match fuel with
+  | O => []
+  | S f => match heappop lt dflt h with
+           | None => []
+           | Some (x, h') => x :: drain f h'
+           end
+  end.
+
+Lemma push_all_perm xs : forall h, Permutation (push_all h xs) (xs ++ h).
+Proof.
+  induction xs as [|x xs IH]; intros h; simpl; auto.
+  eapply perm_trans; [apply IH|].
+  eapply perm_trans; [apply Permutation_app_head, heappush_perm|].
+  apply Permutation_sym, Permutation_middle.
+Qed.
+
+End HeapBasic.
+
+Section HeapFacts.
+Variable lt : qitem -> qitem -> bool.
+Variable dflt : qitem.
+(* the elements the order is well behaved on *)
+Variable P : qitem -> Prop.
+(* the relation the heap invariant is stated with: a preorder on P that the comparisons decide.
+   Instances: R a b := (lt b a = false) for a strict weak order lt; and, for q_lt, the coarser
+   "log time of a <= log time of b", which needs no distinctness assumption at all. *)
+Variable R : qitem -> qitem -> Prop.
+Hypothesis le_refl : forall a, P a -> R a a.
+Hypothesis le_trans : forall a b c, P a -> P b -> P c -> R a b -> R b c -> R a c.
+Hypothesis lt_R : forall a b, P a -> P b -> lt a b = true -> R a b.
+Hypothesis nlt_R : forall a b, P a -> P b -> lt a b = false -> R b a.
+
+Notation get h i := (nth i h dflt).
+Notation le a b := (R a b).
+
+(* the heap invariant of heapq: no element is smaller than its parent *)
+Definition heap (h : list qitem) : Prop :=
+  forall i, (0 < i)%nat -> (i < length h)%nat -> le (get h (parent i)) (get h i).
+
+(* heap with a hole at pos that is about to receive x (the state of _siftdown) *)
+Definition hole_inv (h : list qitem) (pos : nat) (x : qitem) : Prop :=
+  (pos < length h)%nat /\
+  (forall i, (0 < i)%nat -> (i < length h)%nat -> i <> pos -> parent i <> pos -> le (get h (parent i)) (get h i)) /\
+  (forall i, (0 < i)%nat -> (i < length h)%nat -> parent i = pos -> (0 < pos)%nat -> le (get h (parent pos)) (get h i)) /\
+  (forall i, (0 < i)%nat -> (i < length h)%nat -> parent i = pos -> le x (get h i)).
+
+Lemma lset_heap h pos x :
+  hole_inv h pos x -> (pos = 0%nat \/ le (get h (parent pos)) x) -> heap (lset h pos x).
+Proof.
+  intros (Hp & H2 & H3 & H4) Hx i Hi0 Hi. rewrite length_lset in Hi.
+  destruct (Nat.eq_dec i pos) as [->|Hne].
+  - rewrite nth_lset_eq by auto. pose proof (parent_lt pos Hi0).
+    rewrite nth_lset_neq by lia. destruct Hx; [lia|auto].
+  - rewrite (nth_lset_neq h pos i) by auto.
+    destruct (Nat.eq_dec (parent i) pos) as [E|E].
+    + rewrite E, nth_lset_eq by auto. apply H4; auto.
+    + rewrite nth_lset_neq by auto. apply H2; auto.
+Qed.
+
+Lemma siftdown_heap fuel : forall h pos x,
+  (pos <= fuel)%nat -> Forall P h -> P x -> hole_inv h pos x ->
+  heap (siftdown lt dflt fuel h 0 pos x).
+Proof.
+  induction fuel; intros h pos x Hf HP Hx Hinv; simpl.
+  - apply lset_heap; auto. left; lia.
+  - destruct (Nat.ltb_spec 0 pos) as [Hpos|Hpos]; [|apply lset_heap; auto; left; lia].
+    unfold hget. fold (parent pos).
+    pose proof (parent_lt pos Hpos) as Hpp.
+    assert (Ppp : P (get h (parent pos))) by (apply Forall_nth_lt; auto; destruct Hinv; lia).
+    destruct (lt x (get h (parent pos))) eqn:Elt; [|apply lset_heap; auto].
+    destruct Hinv as (Hp & H2 & H3 & H4).
+    assert (Hle : le x (get h (parent pos))) by (apply lt_R; auto).
+    apply IHfuel; [lia|apply Forall_lset; auto|auto|].
+    set (pp := parent pos) in *.
+    assert (Hg : forall j, j <> pos -> get (lset h pos (get h pp)) j = get h j)
+      by (intros; apply nth_lset_neq; auto).
+    assert (Hgp : get (lset h pos (get h pp)) pos = get h pp) by (apply nth_lset_eq; auto).
+    repeat split; rewrite ?length_lset.
+    + lia.
+    + intros i Hi0 Hi Hne1 Hne2.
+      assert (i <> pos) by (intros ->; apply Hne2; reflexivity).
+      rewrite (Hg i) by auto.
+      destruct (Nat.eq_dec (parent i) pos) as [E|E].
+      * rewrite E, Hgp. apply H3; auto.
+      * rewrite Hg by auto. apply H2; auto.
+    + intros i Hi0 Hi Hpi Hpp0.
+      pose proof (parent_lt pp Hpp0) as Hppp.
+      rewrite (Hg (parent pp)) by lia.
+      assert (Hedge : le (get h (parent pp)) (get h pp)) by (apply H2; lia).
+      destruct (Nat.eq_dec i pos) as [->|Hne].
+      * rewrite Hgp. exact Hedge.
+      * rewrite Hg by auto.
+        apply le_trans with (b := get h pp); auto; try (apply Forall_nth_lt; auto; lia).
+        rewrite <- Hpi. apply H2; auto. lia.
+    + intros i Hi0 Hi Hpi.
+      destruct (Nat.eq_dec i pos) as [->|Hne].
+      * rewrite Hgp. exact Hle.
+      * rewrite Hg by auto.
+        apply le_trans with (b := get h pp); auto; try (apply Forall_nth_lt; auto; lia).
+        rewrite <- Hpi. apply H2; auto. lia.
+Qed.
+
+Lemma siftdown_Forall fuel : forall h sp pos x,
+  Forall P h -> P x -> (pos < length h)%nat -> Forall P (siftdown lt dflt fuel h sp pos x).
+Proof.
+  intros h sp pos x Hh Hx Hp.
+  pose proof (siftdown_perm lt dflt fuel h sp pos x Hp) as Hperm.
+  assert (F : Forall P (x :: h)) by (constructor; auto).
+  apply (Permutation_Forall (Permutation_sym Hperm)) in F. inversion F; auto.
+Qed.
+
+Lemma heappush_heap h x : Forall P h -> P x -> heap h -> heap (heappush lt dflt h x).
+Proof.
+  intros Hh Hx Hheap. unfold heappush. apply siftdown_heap; auto.
+  - rewrite app_length; simpl; lia.
+  - apply Forall_app; split; auto.
+  - assert (Hlen : length (h ++ [x]) = S (length h)) by (rewrite app_length; simpl; lia).
+    repeat split; rewrite ?Hlen.
+    + lia.
+    + intros i Hi0 Hi Hne _. pose proof (parent_lt i Hi0).
+      rewrite !app_nth1 by lia. apply Hheap; lia.
+    + intros i Hi0 Hi Hpi _. pose proof (parent_lt i Hi0). lia.
+    + intros i Hi0 Hi Hpi. pose proof (parent_lt i Hi0). lia.
+Qed.
+
+(* ---- _siftup: the hole travels down to a leaf ---- *)
+Definition down_inv (h : list qitem) (pos : nat) : Prop :=
+  (pos < length h)%nat /\
+  (forall i, (0 < i)%nat -> (i < length h)%nat -> i <> pos -> parent i <> pos -> le (get h (parent i)) (get h i)) /\
+  (forall i, (0 < i)%nat -> (i < length h)%nat -> parent i = pos -> (0 < pos)%nat -> le (get h (parent pos)) (get h i)).
+
 Lemma siftup_loop_spec fuel : forall h pos h' p,
   (length h <= fuel + pos)%nat -> Forall P h -> down_inv h pos ->
   siftup_loop lt dflt fuel h (length h) pos = (h', p) ->
@@ -286,10 +345,10 @@ Proof.
         + split; [lia|]. split; [lia|]. intros i Hi Hpi Hi0.
           destruct (parent_spec i Hi0) as [Ei|Ei]; rewrite Hpi in Ei; subst i.
           * apply le_refl; auto.
-          * replace (2 * pos + 2)%nat with (2 * pos + 1 + 1)%nat by lia. apply lt_asym; auto.
+          * replace (2 * pos + 2)%nat with (2 * pos + 1 + 1)%nat by lia. apply lt_R; auto.
         + split; [lia|]. split; [lia|]. intros i Hi Hpi Hi0.
           destruct (parent_spec i Hi0) as [Ei|Ei]; rewrite Hpi in Ei; subst i.
-          * exact El.
+          * apply nlt_R; auto.
           * replace (2 * pos + 2)%nat with (2 * pos + 1 + 1)%nat by lia. apply le_refl; auto.
       - split; [lia|]. split; [lia|]. intros i Hi Hpi Hi0.
         destruct (parent_spec i Hi0) as [Ei|Ei]; rewrite Hpi in Ei; subst i.
@@ -346,35 +405,6 @@ Proof.
   rewrite !app_nth1 in H by lia. exact H.
 Qed.
 
-Lemma heappop_none h : heappop lt dflt h = None <-> h = [].
-Proof.
-  unfold heappop. split.
-  - destruct (rev h) as [|l r] eqn:E.
-    + intros _. apply (f_equal (@rev _)) in E. rewrite rev_involutive in E. exact E.
-    + destruct (rev r); discriminate.
-  - intros ->. reflexivity.
-Qed.
-
-Lemma heappop_cases h x h' :
-  heappop lt dflt h = Some (x, h') ->
-  (h = [x] /\ h' = []) \/
-  (exists tl last, h = x :: tl ++ [last] /\ h' = siftup lt dflt (last :: tl) 0).
-Proof.
-  unfold heappop. destruct (rev h) as [|l r] eqn:E; [discriminate|].
-  apply (f_equal (@rev _)) in E. rewrite rev_involutive in E. simpl in E.
-  destruct (rev r) as [|top tl] eqn:Er; intros H; inversion H; subst.
-  - left. auto.
-  - right. exists tl, l. auto.
-Qed.
-
-Lemma heappop_perm h x h' : heappop lt dflt h = Some (x, h') -> Permutation h (x :: h').
-Proof.
-  intros H. apply heappop_cases in H. destruct H as [(-> & ->)|(tl & last & -> & ->)]; [auto|].
-  apply perm_skip.
-  eapply perm_trans; [apply Permutation_sym, Permutation_cons_append|].
-  apply Permutation_sym, siftup_perm. simpl; lia.
-Qed.
-
 Lemma heappop_heap h x h' : heappop lt dflt h = Some (x, h') -> Forall P h -> heap h -> heap h'.
 Proof.
   intros H HP Hh. apply heappop_cases in H. destruct H as [(-> & ->)|(tl & last & -> & ->)].
@@ -405,15 +435,1222 @@ Proof.
 Qed.
 
 Lemma heappop_min h x h' :
-  heappop lt dflt h = Some (x, h') -> Forall P h -> heap h -> Forall (fun y => lt y x = false) h'.
+  heappop lt dflt h = Some (x, h') -> Forall P h -> heap h -> Forall (fun y => le x y) h'.
 Proof.
-  intros H HP Hh. pose proof (heappop_perm _ _ _ H) as Perm.
+  intros H HP Hh. pose proof (heappop_perm lt dflt _ _ _ H) as Perm.
   assert (Hx : x = get h 0).
   { apply heappop_cases in H. destruct H as [(-> & _)|(tl & last & -> & _)]; reflexivity. }
-  assert (All : Forall (fun y => lt y x = false) h).
+  assert (All : Forall (fun y => le x y) h).
   { apply Forall_forall. intros y Hy. destruct (In_nth _ _ dflt Hy) as (i & Hi & <-).
     rewrite Hx. apply heap_root_min; auto. }
   apply (Permutation_Forall Perm) in All. inversion All; auto.
 Qed.
 
+Lemma push_all_heap xs : forall h, Forall P xs -> Forall P h -> heap h -> heap (push_all lt dflt h xs).
+Proof.
+  induction xs as [|x xs IH]; intros h Hxs Hh Hheap; simpl; auto.
+  inversion Hxs; subst. apply IH; auto.
+  - eapply Permutation_Forall; [apply Permutation_sym, heappush_perm|]. constructor; auto.
+  - apply heappush_heap; auto.
+Qed.
+
+Lemma heap_nil : heap [].
+Proof. intros i _ Hi. simpl in Hi. inversion Hi. Qed.
+
+Lemma drain_spec fuel : forall h,
+  (length h <= fuel)%nat -> Forall P h -> heap h ->
+  Permutation (drain lt dflt fuel h) h /\ StronglySorted R (drain lt dflt fuel h).
+Proof.
+  induction fuel; intros h Hf HP Hh; simpl.
+  - destruct h; simpl in Hf; [|lia]. split; constructor.
+  - destruct (heappop lt dflt h) as [[x h']|] eqn:E.
+    + pose proof (heappop_perm lt dflt _ _ _ E) as Perm.
+      pose proof (heappop_heap _ _ _ E HP Hh) as Hh'.
+      pose proof (heappop_min _ _ _ E HP Hh) as Hmin.
+      assert (HP' : Forall P h').
+      { apply (Permutation_Forall Perm) in HP. inversion HP; auto. }
+      apply Permutation_length in Perm. simpl in Perm.
+      destruct (IHfuel h' ltac:(lia) HP' Hh') as (IP & IS).
+      split.
+      * eapply perm_trans; [apply perm_skip, IP|]. apply Permutation_sym, (heappop_perm lt dflt), E.
+      * constructor; auto. eapply Permutation_Forall; [apply Permutation_sym, IP|]. exact Hmin.
+    + apply heappop_none in E. subst. split; constructor.
+Qed.
+
+(* A.4: heapsort *)
+Theorem heapsort_spec xs :
+  Forall P xs ->
+  let out := drain lt dflt (length xs) (push_all lt dflt [] xs) in
+  Permutation out xs /\ StronglySorted R out.
+Proof.
+  intros HP out.
+  pose proof (push_all_perm lt dflt xs []) as Perm. rewrite app_nil_r in Perm.
+  destruct (drain_spec (length xs) (push_all lt dflt [] xs)) as (DP & DS).
+  - apply Permutation_length in Perm. lia.
+  - eapply Permutation_Forall; [apply Permutation_sym, Perm|]. exact HP.
+  - apply push_all_heap; auto. apply heap_nil.
+  - split; auto. eapply perm_trans; eauto.
+Qed.
+
 End HeapFacts.
+
+(* ---- strict weak / strict total orders on the elements of a list ---- *)
+Definition swo_on (lt : qitem -> qitem -> bool) (l : list qitem) : Prop :=
+  (forall a b, In a l -> In b l -> lt a b = true -> lt b a = false) /\
+  (forall a b c, In a l -> In b l -> In c l -> lt b a = false -> lt c b = false -> lt c a = false).
+
+Definition sto_on (lt : qitem -> qitem -> bool) (l : list qitem) : Prop :=
+  (forall a, In a l -> lt a a = false) /\
+  (forall a b c, In a l -> In b l -> In c l -> lt a b = true -> lt b c = true -> lt a c = true) /\
+  (forall a b, In a l -> In b l -> lt a b = false -> lt b a = false -> a = b).
+
+Lemma sto_swo lt l : sto_on lt l -> swo_on lt l.
+Proof.
+  intros (Irr & Tr & Tot). split.
+  - intros a b Ha Hb Hab. destruct (lt b a) eqn:E; auto.
+    rewrite <- (Irr a Ha). symmetry. eapply Tr; eauto.
+  - intros a b c Ha Hb Hc Hba Hcb. destruct (lt c a) eqn:E; auto.
+    destruct (lt a b) eqn:Eab.
+    + rewrite <- Hcb. symmetry. apply (Tr c a b); auto.
+    + assert (a = b) by (apply Tot; auto). subst. congruence.
+Qed.
+
+Lemma swo_on_incl lt l l' : incl l' l -> swo_on lt l -> swo_on lt l'.
+Proof. intros I (A & B). split; intros; eauto 10. Qed.
+
+Definition heap_lt (lt : qitem -> qitem -> bool) (dflt : qitem) (h : list qitem) : Prop :=
+  forall i, (0 < i)%nat -> (i < length h)%nat -> lt (nth i h dflt) (nth (parent i) h dflt) = false.
+
+Section HeapLt.
+Variable lt : qitem -> qitem -> bool.
+Variable dflt : qitem.
+Variable l : list qitem.
+Hypothesis Hswo : swo_on lt l.
+Let P := fun a => In a l.
+Let R := fun a b => lt b a = false.
+
+Lemma swo_refl a : P a -> R a a.
+Proof. intros Ha. unfold R. destruct (lt a a) eqn:E; auto. pose proof (proj1 Hswo a a Ha Ha E). congruence. Qed.
+Lemma swo_trans a b c : P a -> P b -> P c -> R a b -> R b c -> R a c.
+Proof. intros. apply (proj2 Hswo) with (b := b); auto. Qed.
+Lemma swo_lt_R a b : P a -> P b -> lt a b = true -> R a b.
+Proof. intros. apply (proj1 Hswo); auto. Qed.
+Lemma swo_nlt_R a b : P a -> P b -> lt a b = false -> R b a.
+Proof. auto. Qed.
+
+(* A.1 *)
+Theorem heappush_heap_lt h x :
+  incl (x :: h) l -> heap_lt lt dflt h -> heap_lt lt dflt (heappush lt dflt h x).
+Proof.
+  intros I Hh. apply (heappush_heap lt dflt P R swo_refl swo_trans swo_lt_R swo_nlt_R); auto.
+  - apply Forall_forall. intros y Hy. apply I. right; auto.
+  - apply I. left; auto.
+Qed.
+
+Theorem heappop_heap_lt h x h' :
+  incl h l -> heap_lt lt dflt h -> heappop lt dflt h = Some (x, h') -> heap_lt lt dflt h'.
+Proof.
+  intros I Hh E. apply (heappop_heap lt dflt P R swo_refl swo_trans swo_lt_R swo_nlt_R h x h'); auto.
+  apply Forall_forall. intros y Hy. apply I; auto.
+Qed.
+
+(* A.3 *)
+Theorem heappop_min_lt h x h' :
+  incl h l -> heap_lt lt dflt h -> heappop lt dflt h = Some (x, h') -> Forall (fun y => lt y x = false) h'.
+Proof.
+  intros I Hh E. apply (heappop_min lt dflt P R swo_refl swo_trans swo_lt_R swo_nlt_R h x h'); auto.
+  apply Forall_forall. intros y Hy. apply I; auto.
+Qed.
+End HeapLt.
+
+(* A.4 *)
+Theorem heapsort_lt lt dflt xs :
+  swo_on lt xs ->
+  let out := drain lt dflt (length xs) (push_all lt dflt [] xs) in
+  Permutation out xs /\ StronglySorted (fun a b => lt b a = false) out.
+Proof.
+  intros H.
+  apply (heapsort_spec lt dflt (fun a => In a xs) (fun a b => lt b a = false)
+           (swo_refl lt xs H) (swo_trans lt xs H) (swo_lt_R lt xs H) (swo_nlt_R lt xs)).
+  apply Forall_forall; auto.
+Qed.
+
+Corollary heapsort_sto lt dflt xs :
+  sto_on lt xs ->
+  let out := drain lt dflt (length xs) (push_all lt dflt [] xs) in
+  Permutation out xs /\ StronglySorted (fun a b => lt b a = false) out.
+Proof. intros H. apply heapsort_lt, sto_swo, H. Qed.
+
+(* ------------------------------------------------------------------ *)
+(* B. the order of _message_queue.py                                   *)
+(* ------------------------------------------------------------------ *)
+Ltac n_cases :=
+  repeat match goal with
+  | |- context [N.eqb ?a ?b] => destruct (N.eqb_spec a b)
+  | |- context [N.ltb ?a ?b] => destruct (N.ltb_spec a b)
+  | H : context [N.eqb ?a ?b] |- _ => destruct (N.eqb_spec a b)
+  | H : context [N.ltb ?a ?b] |- _ => destruct (N.ltb_spec a b)
+  end.
+
+Ltac q_unfold := unfold q_lt, q_cmp, q_pos, q_log in *.
+
+Lemma q_lt_irrefl r x : q_lt r x x = false.
+Proof. destruct x, r; q_unfold; n_cases; try lia; try congruence. Qed.
+
+Lemma q_lt_trans r x y z : q_lt r x y = true -> q_lt r y z = true -> q_lt r x z = true.
+Proof.
+  destruct x, y, z, r; q_unfold; intros H1 H2; n_cases; try lia; try congruence.
+Qed.
+
+Lemma q_lt_asym r x y : q_lt r x y = true -> q_lt r y x = false.
+Proof.
+  intros H. destruct (q_lt r y x) eqn:E; auto.
+  rewrite <- (q_lt_irrefl r x). symmetry. eapply q_lt_trans; eauto.
+Qed.
+
+(* two items neither of which is before the other *)
+Definition q_tie (r : bool) (x y : qitem) : Prop :=
+  q_log r x = q_log r y /\ fst (q_pos r x) = fst (q_pos r y) /\
+  match snd (q_pos r x), snd (q_pos r y) with
+  | Some a, Some b => a = b
+  | _, _ => True
+  end.
+
+Lemma q_tie_iff r x y : (q_lt r x y = false /\ q_lt r y x = false) <-> q_tie r x y.
+Proof.
+  unfold q_tie. destruct x, y, r; q_unfold; cbn [fst snd]; split.
+  all: try (intros (H1 & H2); n_cases; try discriminate; repeat split; lia).
+  all: intros (H1 & H2 & H3); n_cases; try lia; auto.
+Qed.
+
+(* what a tie is, case by case *)
+Lemma q_tie_chunks r a b :
+  q_tie r (QChunk a) (QChunk b) <->
+  (if r then ci_end a = ci_end b /\ ci_offset a + ci_length a = ci_offset b + ci_length b
+   else ci_start a = ci_start b /\ ci_offset a = ci_offset b).
+Proof. unfold q_tie; destruct r; cbn; tauto. Qed.
+
+Lemma q_tie_msgs r t1 o1 i1 t2 o2 i2 :
+  q_tie r (QMsg t1 o1 i1) (QMsg t2 o2 i2) <-> (t_log t1 = t_log t2 /\ o1 = o2 /\ i1 = i2).
+Proof. unfold q_tie; destruct r; cbn; tauto. Qed.
+
+Lemma q_tie_chunk_msg r c t o i :
+  q_tie r (QChunk c) (QMsg t o i) <->
+  (if r then ci_end c = t_log t /\ ci_offset c + ci_length c = o
+   else ci_start c = t_log t /\ ci_offset c = o).
+Proof. unfold q_tie; destruct r; cbn; tauto. Qed.
+
+Lemma q_tie_sym r x y : q_tie r x y -> q_tie r y x.
+Proof. intros H. apply q_tie_iff. apply q_tie_iff in H. tauto. Qed.
+
+Definition q_distinct (r : bool) (l : list qitem) : Prop :=
+  forall x y, In x l -> In y l -> q_tie r x y -> x = y.
+
+(* B: q_lt is a strict total order on any list of items without ties *)
+Theorem q_lt_sto r l : q_distinct r l -> sto_on (q_lt r) l.
+Proof.
+  intros D. repeat split.
+  - intros; apply q_lt_irrefl.
+  - intros; eapply q_lt_trans; eauto.
+  - intros a b Ha Hb H1 H2. apply D; auto. apply q_tie_iff; auto.
+Qed.
+
+Corollary q_lt_swo r l : q_distinct r l -> swo_on (q_lt r) l.
+Proof. intros; apply sto_swo, q_lt_sto; auto. Qed.
+
+(* on message items q_lt is the lexicographic order on (log time, chunk offset, index) *)
+Lemma q_lt_msgs r t1 o1 i1 t2 o2 i2 :
+  q_lt r (QMsg t1 o1 i1) (QMsg t2 o2 i2) = true <->
+  (if r
+   then (t_log t2 < t_log t1 \/ (t_log t1 = t_log t2 /\ (o2 < o1 \/ (o1 = o2 /\ i2 < i1))))
+   else (t_log t1 < t_log t2 \/ (t_log t1 = t_log t2 /\ (o1 < o2 \/ (o1 = o2 /\ i1 < i2)))))%N.
+Proof. destruct r; q_unfold; split; intros H; n_cases; try lia; try congruence. Qed.
+
+(* the coarser preorder: compare log times only.  q_lt decides it without any assumption. *)
+Definition log_le (r : bool) (a b : qitem) : Prop :=
+  if r then (q_log r b <= q_log r a)%N else (q_log r a <= q_log r b)%N.
+
+Lemma log_le_refl r a : log_le r a a.
+Proof. unfold log_le; destruct r; lia. Qed.
+Lemma log_le_trans r a b c : log_le r a b -> log_le r b c -> log_le r a c.
+Proof. unfold log_le; destruct r; lia. Qed.
+Lemma q_lt_log_le r a b : q_lt r a b = true -> log_le r a b.
+Proof. unfold log_le, q_lt, q_cmp. destruct r; intros H; n_cases; try lia; try congruence. Qed.
+Lemma q_nlt_log_le r a b : q_lt r a b = false -> log_le r b a.
+Proof. unfold log_le, q_lt, q_cmp. destruct r; intros H; n_cases; try lia; try congruence. Qed.
+
+(* ------------------------------------------------------------------ *)
+(* C. SeekingReader.iter_messages                                      *)
+(* ------------------------------------------------------------------ *)
+Definition is_msg (x : qitem) : Prop := match x with QMsg _ _ _ => True | QChunk _ => False end.
+Definition q_idx (x : qitem) : N := match x with QMsg _ _ i => i | QChunk _ => 0%N end.
+Definition q_triples (l : list qitem) : list triple :=
+  flat_map (fun x => match x with QMsg t _ _ => [t] | QChunk _ => [] end) l.
+
+Lemma q_triples_app a b : q_triples (a ++ b) = q_triples a ++ q_triples b.
+Proof. apply flat_map_app. Qed.
+
+(* the queue items one chunk contributes: the pure content of push_chunk_msgs *)
+Fixpoint sel_items (su : summary) (flt : mfilter) (off : N) (recs : list prec) (i : N) : option (list qitem) :=
+  match recs with
+  | [] => Some []
+  | PMessage m :: r =>
+    match pn_get (m_chan m) (su_channels su) with
+    | None => None
+    | Some c =>
+      if msg_selected flt c m then
+        if (c_schema c =? 0)%N then option_map (cons (QMsg (None, c, m) off i)) (sel_items su flt off r (i + 1))
+        else match pn_get (c_schema c) (su_schemas su) with
+             | None => None
+             | Some sc => option_map (cons (QMsg (Some sc, c, m) off i)) (sel_items su flt off r (i + 1))
+             end
+      else sel_items su flt off r (i + 1)
+    end
+  | _ :: r => sel_items su flt off r (i + 1)
+  end.
+
+Lemma push_chunk_msgs_sel su flt off recs : forall i q,
+  push_chunk_msgs su flt off recs i q =
+  match sel_items su flt off recs i with
+  | Some its => POk (fold_left q_push its q)
+  | None => PRaise PKey
+  end.
+Proof.
+  induction recs as [|r recs IH]; intros i q; [reflexivity|].
+  destruct r; cbn [push_chunk_msgs sel_items]; try apply IH.
+  destruct (pn_get (m_chan m) (su_channels su)) as [c|]; [|reflexivity].
+  destruct (msg_selected flt c m); [|apply IH].
+  destruct (c_schema c =? 0)%N.
+  - rewrite IH. destruct (sel_items su flt off recs (i + 1)); reflexivity.
+  - destruct (pn_get (c_schema c) (su_schemas su)) as [sc|]; [|reflexivity].
+    rewrite IH. destruct (sel_items su flt off recs (i + 1)); reflexivity.
+Qed.
+
+(* declaratively: the selected messages in record order, numbered by their record index *)
+Definition msg_item (su : summary) (flt : mfilter) (off : N) (r : prec) (j : N) : list qitem :=
+  match r with
+  | PMessage m =>
+    match pn_get (m_chan m) (su_channels su) with
+    | Some c =>
+      if msg_selected flt c m
+      then [QMsg (if (c_schema c =? 0)%N then None else pn_get (c_schema c) (su_schemas su), c, m) off j]
+      else []
+    | None => []
+    end
+  | _ => []
+  end.
+Fixpoint sel_spec (su : summary) (flt : mfilter) (off : N) (recs : list prec) (i : N) : list qitem :=
+  match recs with
+  | [] => []
+  | r :: rs => msg_item su flt off r i ++ sel_spec su flt off rs (i + 1)
+  end.
+
+Lemma sel_items_spec su flt off recs : forall i its,
+  sel_items su flt off recs i = Some its -> its = sel_spec su flt off recs i.
+Proof.
+  induction recs as [|r recs IH]; intros i its H; [inversion H; reflexivity|].
+  destruct r; cbn [sel_items sel_spec msg_item app] in *; try (apply IH; assumption).
+  destruct (pn_get (m_chan m) (su_channels su)) as [c|]; [|discriminate].
+  destruct (msg_selected flt c m); [|apply IH; assumption].
+  destruct (c_schema c =? 0)%N.
+  - destruct (sel_items su flt off recs (i + 1)) as [its'|] eqn:E; [|discriminate].
+    inversion H; subst. simpl. f_equal. apply IH; auto.
+  - destruct (pn_get (c_schema c) (su_schemas su)) as [sc|]; [|discriminate].
+    destruct (sel_items su flt off recs (i + 1)) as [its'|] eqn:E; [|discriminate].
+    inversion H; subst. simpl. f_equal. apply IH; auto.
+Qed.
+
+(* when every message's channel, and its schema if it has one, is in the summary, nothing raises *)
+Definition rec_resolvable (su : summary) (r : prec) : Prop :=
+  match r with
+  | PMessage m => exists c, pn_get (m_chan m) (su_channels su) = Some c /\
+                            (c_schema c = 0%N \/ exists sc, pn_get (c_schema c) (su_schemas su) = Some sc)
+  | _ => True
+  end.
+
+Lemma sel_items_total su flt off recs : Forall (rec_resolvable su) recs ->
+  forall i, sel_items su flt off recs i = Some (sel_spec su flt off recs i).
+Proof.
+  induction 1 as [|r recs Hr _ IH]; intros i; [reflexivity|].
+  destruct r; cbn [sel_items sel_spec msg_item app]; try apply IH.
+  destruct Hr as (c & Hc & Hs). rewrite Hc.
+  destruct (msg_selected flt c m); [|apply IH].
+  destruct (N.eqb_spec (c_schema c) 0).
+  - rewrite IH. reflexivity.
+  - destruct Hs as [|(sc & Hsc)]; [contradiction|]. rewrite Hsc, IH. reflexivity.
+Qed.
+
+Lemma sel_spec_shape su flt off recs : forall i x,
+  In x (sel_spec su flt off recs i) -> exists t j, x = QMsg t off j /\ (i <= j)%N.
+Proof.
+  induction recs as [|r recs IH]; intros i x H; [destruct H|].
+  cbn [sel_spec] in H. apply in_app_or in H. destruct H as [H|H].
+  - destruct r; cbn [msg_item] in H; try destruct H.
+    destruct (pn_get (m_chan m) (su_channels su)) as [c|]; [|destruct H].
+    destruct (msg_selected flt c m); [|destruct H].
+    destruct H as [<-|[]]. eexists _, i. split; [reflexivity|lia].
+  - apply IH in H. destruct H as (t & j & -> & Hj). exists t, j. split; auto. lia.
+Qed.
+
+(* the index identifies the item *)
+Lemma sel_spec_idx_inj su flt off recs : forall i x y,
+  In x (sel_spec su flt off recs i) -> In y (sel_spec su flt off recs i) -> q_idx x = q_idx y -> x = y.
+Proof.
+  induction recs as [|r recs IH]; intros i x y Hx Hy E; [destruct Hx|].
+  cbn [sel_spec] in Hx, Hy. apply in_app_or in Hx. apply in_app_or in Hy.
+  assert (Hhead : forall z, In z (msg_item su flt off r i) -> q_idx z = i /\ forall z', In z' (msg_item su flt off r i) -> z' = z).
+  { intros z Hz. destruct r; cbn [msg_item] in *; try destruct Hz.
+    destruct (pn_get (m_chan m) (su_channels su)) as [c|]; [|destruct Hz].
+    destruct (msg_selected flt c m); [|destruct Hz].
+    destruct Hz as [<-|[]]. split; [reflexivity|]. intros z' [<-|[]]. reflexivity. }
+  assert (Htail : forall z, In z (sel_spec su flt off recs (i + 1)) -> (i + 1 <= q_idx z)%N).
+  { intros z Hz. apply sel_spec_shape in Hz. destruct Hz as (t & j & -> & Hj). exact Hj. }
+  destruct Hx as [Hx|Hx], Hy as [Hy|Hy].
+  - apply (proj2 (Hhead y Hy)); auto.
+  - apply Hhead in Hx. apply Htail in Hy. lia.
+  - apply Hhead in Hy. apply Htail in Hx. lia.
+  - eapply IH; eauto.
+Qed.
+
+Lemma sel_spec_sorted su flt off recs : forall i,
+  StronglySorted (fun a b => (q_idx a < q_idx b)%N) (sel_spec su flt off recs i).
+Proof.
+  induction recs as [|r recs IH]; intros i; [constructor|].
+  cbn [sel_spec].
+  assert (T : Forall (fun z => (i < q_idx z)%N) (sel_spec su flt off recs (i + 1))).
+  { apply Forall_forall. intros z Hz. apply sel_spec_shape in Hz. destruct Hz as (t & j & -> & Hj). simpl. lia. }
+  destruct r; cbn [msg_item app]; try apply IH.
+  destruct (pn_get (m_chan m) (su_channels su)) as [c|]; [|apply IH].
+  destruct (msg_selected flt c m); [|apply IH].
+  simpl. constructor; [apply IH|exact T].
+Qed.
+
+(* reading one chunk through its index *)
+Definition chunk_items (file : bytes) (validate : bool) (su : summary) (flt : mfilter) (c : chunkindex)
+  : option (list qitem) :=
+  match chunk_at file (ci_offset c) with
+  | POk k => match breakup_chunk k validate with
+             | POk recs => sel_items su flt (ci_offset c) recs 0
+             | _ => None
+             end
+  | _ => None
+  end.
+
+Lemma chunk_items_shape file validate su flt c its x :
+  chunk_items file validate su flt c = Some its -> In x its ->
+  exists t j, x = QMsg t (ci_offset c) j.
+Proof.
+  unfold chunk_items. destruct (chunk_at file (ci_offset c)); try discriminate.
+  destruct (breakup_chunk a validate); try discriminate.
+  intros H Hx. apply sel_items_spec in H. subst. apply sel_spec_shape in Hx.
+  destruct Hx as (t & j & -> & _). eauto.
+Qed.
+
+Lemma chunk_items_idx_inj file validate su flt c its x y :
+  chunk_items file validate su flt c = Some its -> In x its -> In y its -> q_idx x = q_idx y -> x = y.
+Proof.
+  unfold chunk_items. destruct (chunk_at file (ci_offset c)); try discriminate.
+  destruct (breakup_chunk a validate); try discriminate.
+  intros H. apply sel_items_spec in H. subst. apply sel_spec_idx_inj.
+Qed.
+
+Lemma chunk_items_sorted file validate su flt c its :
+  chunk_items file validate su flt c = Some its -> StronglySorted (fun a b => (q_idx a < q_idx b)%N) its.
+Proof.
+  unfold chunk_items. destruct (chunk_at file (ci_offset c)); try discriminate.
+  destruct (breakup_chunk a validate); try discriminate.
+  intros H. apply sel_items_spec in H. subst. apply sel_spec_sorted.
+Qed.
+
+Lemma chunk_items_msgs file validate su flt c its :
+  chunk_items file validate su flt c = Some its -> Forall is_msg its.
+Proof.
+  intros H. apply Forall_forall. intros x Hx.
+  destruct (chunk_items_shape _ _ _ _ _ _ _ H Hx) as (t & j & ->). exact I.
+Qed.
+
+(* one turn of the loop *)
+Lemma sk_loop_msg f file validate su flt q q' acc t o i :
+  q_pop q = Some (QMsg t o i, q') ->
+  sk_loop (S f) file validate su flt q acc = sk_loop f file validate su flt q' (t :: acc).
+Proof. intros H. cbn [sk_loop]. rewrite H. reflexivity. Qed.
+
+Lemma sk_loop_chunk f file validate su flt q q' acc c its :
+  q_pop q = Some (QChunk c, q') -> chunk_items file validate su flt c = Some its ->
+  sk_loop (S f) file validate su flt q acc = sk_loop f file validate su flt (fold_left q_push its q') acc.
+Proof.
+  intros H Hc. cbn [sk_loop]. rewrite H. unfold chunk_items in Hc.
+  destruct (chunk_at file (ci_offset c)) as [k| |]; try discriminate. cbn [pbind].
+  destruct (breakup_chunk k validate) as [recs| |]; try discriminate. cbn [pbind].
+  rewrite push_chunk_msgs_sel, Hc. reflexivity.
+Qed.
+
+Lemma sk_loop_none f file validate su flt q acc :
+  q_pop q = None -> sk_loop (S f) file validate su flt q acc = (rev acc, EStop).
+Proof. intros H. cbn [sk_loop]. rewrite H. reflexivity. Qed.
+
+Lemma fold_push_heap r its : forall h,
+  fold_left q_push its (QHeap r h) = QHeap r (push_all (q_lt r) q_dflt h its).
+Proof. induction its as [|x its IH]; intros h; simpl; auto. Qed.
+
+Lemma fold_push_fifo its : forall l, fold_left q_push its (QFifo l) = QFifo (l ++ its).
+Proof.
+  induction its as [|x its IH]; intros l; simpl; [rewrite app_nil_r; auto|].
+  rewrite IH, <- app_assoc. reflexivity.
+Qed.
+
+(* ---- the generic loop theorem ---- *)
+Section Loop.
+Variable file : bytes.
+Variable validate : bool.
+Variable su : summary.
+Variable flt : mfilter.
+Variable rev_ : bool.
+
+Notation items c := (chunk_items file validate su flt c).
+
+(* what an item stands for: a message for itself, a chunk for its selected messages *)
+Definition pend1 (x : qitem) : list qitem :=
+  match x with
+  | QMsg _ _ _ => [x]
+  | QChunk c => match items c with Some its => its | None => [] end
+  end.
+Definition pending (l : list qitem) : list qitem := flat_map pend1 l.
+(* the number of loop turns an item costs *)
+Definition expand1 (x : qitem) : list qitem :=
+  match x with
+  | QMsg _ _ _ => [x]
+  | QChunk c => x :: match items c with Some its => its | None => [] end
+  end.
+Definition turns (l : list qitem) : nat := length (flat_map expand1 l).
+
+Lemma pending_msgs its : Forall is_msg its -> pending its = its.
+Proof.
+  induction 1 as [|x its Hx _ IH]; [reflexivity|].
+  unfold pending in *. simpl. rewrite IH. destruct x; [destruct Hx|reflexivity].
+Qed.
+
+Lemma turns_msgs its : Forall is_msg its -> turns its = length its.
+Proof.
+  induction 1 as [|x its Hx _ IH]; [reflexivity|].
+  unfold turns in *. simpl. rewrite app_length, IH. destruct x; [destruct Hx|reflexivity].
+Qed.
+
+Lemma turns_app a b : turns (a ++ b) = (turns a + turns b)%nat.
+Proof. unfold turns. rewrite flat_map_app, app_length. reflexivity. Qed.
+
+Lemma pending_app a b : pending (a ++ b) = pending a ++ pending b.
+Proof. apply flat_map_app. Qed.
+
+Lemma turns_cons_msg t o i L : turns (QMsg t o i :: L) = S (turns L).
+Proof. reflexivity. Qed.
+
+Lemma turns_cons_chunk c its L : items c = Some its -> turns (QChunk c :: L) = S (length its + turns L).
+Proof. intros H. unfold turns. cbn [flat_map expand1]. rewrite H. simpl. rewrite app_length. reflexivity. Qed.
+
+Lemma pending_cons_chunk c its L : items c = Some its -> pending (QChunk c :: L) = its ++ pending L.
+Proof. intros H. unfold pending. cbn [flat_map pend1]. rewrite H. reflexivity. Qed.
+
+Lemma turns_perm a b : Permutation a b -> turns a = turns b.
+Proof. intros H. unfold turns. apply Permutation_length, Permutation_flat_map, H. Qed.
+
+Lemma pending_perm a b : Permutation a b -> Permutation (pending a) (pending b).
+Proof. intros H. apply Permutation_flat_map, H. Qed.
+
+Variable R : qitem -> qitem -> Prop.
+(* J: what is known about the contents of the queue *)
+Variable J : list qitem -> Prop.
+Hypothesis J_perm : forall L L', Permutation L L' -> J L -> J L'.
+Hypothesis J_pop : forall x L, J (x :: L) -> J L.
+Hypothesis J_chunk : forall c L, J (QChunk c :: L) -> exists its, items c = Some its /\ J (its ++ L).
+Hypothesis J_refl : forall L a, J L -> In a L -> R a a.
+Hypothesis J_trans : forall L a b c, J L -> In a L -> In b L -> In c L -> R a b -> R b c -> R a c.
+Hypothesis J_lt : forall L a b, J L -> In a L -> In b L -> q_lt rev_ a b = true -> R a b.
+Hypothesis J_nlt : forall L a b, J L -> In a L -> In b L -> q_lt rev_ a b = false -> R b a.
+(* popping a message before a chunk is popped is safe for the messages of that chunk *)
+Hypothesis J_safe : forall t o i L c m,
+  J (QMsg t o i :: L) -> In (QChunk c) L -> In m (pend1 (QChunk c)) ->
+  R (QMsg t o i) (QChunk c) -> R (QMsg t o i) m.
+
+Notation hp := (heap q_dflt R).
+
+Lemma all_in (L : list qitem) : Forall (fun a => In a L) L.
+Proof. apply Forall_forall; auto. Qed.
+
+Lemma loop_spec fuel : forall h acc,
+  hp h -> J h -> (turns h < fuel)%nat ->
+  exists out,
+    sk_loop fuel file validate su flt (QHeap rev_ h) acc = (rev acc ++ q_triples out, EStop) /\
+    Permutation out (pending h) /\ StronglySorted R out.
+Proof.
+  induction fuel; intros h acc Hh HJ Hf; [lia|].
+  destruct (heappop (q_lt rev_) q_dflt h) as [[x h']|] eqn:E.
+  - pose proof (heappop_perm _ _ _ _ _ E) as Perm.
+    assert (Hh' : hp h').
+    { apply (heappop_heap (q_lt rev_) q_dflt (fun a => In a h) R
+               (fun a => J_refl h a HJ) (fun a b c => J_trans h a b c HJ)
+               (fun a b => J_lt h a b HJ) (fun a b => J_nlt h a b HJ) h x h' E (all_in h) Hh). }
+    assert (Hmin : Forall (fun y => R x y) h').
+    { apply (heappop_min (q_lt rev_) q_dflt (fun a => In a h) R
+               (fun a => J_refl h a HJ) (fun a b c => J_trans h a b c HJ)
+               (fun a b => J_lt h a b HJ) (fun a b => J_nlt h a b HJ) h x h' E (all_in h) Hh). }
+    assert (HJx : J (x :: h')) by (eapply J_perm; eauto).
+    pose proof (turns_perm _ _ Perm) as Ht.
+    destruct x as [c|t o i].
+    + (* a chunk index: its messages go on the queue *)
+      destruct (J_chunk c h' HJx) as (its & Hits & HJ2).
+      pose proof (chunk_items_msgs _ _ _ _ _ _ Hits) as Hmsgs.
+      rewrite (sk_loop_chunk fuel file validate su flt (QHeap rev_ h) (QHeap rev_ h') acc c its);
+        [|cbn [q_pop]; rewrite E; reflexivity|exact Hits].
+      rewrite fold_push_heap.
+      set (h2 := push_all (q_lt rev_) q_dflt h' its).
+      assert (Perm2 : Permutation h2 (its ++ h')) by apply push_all_perm.
+      assert (Hh2 : hp h2).
+      { apply (push_all_heap (q_lt rev_) q_dflt (fun a => In a (its ++ h')) R
+                 (fun a => J_refl _ a HJ2) (fun a b c => J_trans _ a b c HJ2)
+                 (fun a b => J_lt _ a b HJ2) (fun a b => J_nlt _ a b HJ2)); auto.
+        - apply Forall_forall; intros; apply in_or_app; auto.
+        - apply Forall_forall; intros; apply in_or_app; auto. }
+      assert (HJh2 : J h2) by (eapply J_perm; [apply Permutation_sym, Perm2|exact HJ2]).
+      destruct (IHfuel h2 acc Hh2 HJh2) as (out & Hout & Pout & Sout).
+      { rewrite (turns_perm _ _ Perm2), turns_app, turns_msgs by auto.
+        rewrite (turns_cons_chunk c its h' Hits) in Ht. lia. }
+      exists out. split; [exact Hout|]. split; [|exact Sout].
+      eapply perm_trans; [exact Pout|].
+      eapply perm_trans; [apply pending_perm, Perm2|].
+      rewrite pending_app, pending_msgs by auto.
+      eapply perm_trans; [|apply Permutation_sym, pending_perm, Perm].
+      rewrite (pending_cons_chunk c its h' Hits). apply Permutation_refl.
+    + (* a message: it is yielded *)
+      rewrite (sk_loop_msg fuel file validate su flt (QHeap rev_ h) (QHeap rev_ h') acc t o i);
+        [|cbn [q_pop]; rewrite E; reflexivity].
+      assert (HJh' : J h') by (eapply J_pop; eauto).
+      destruct (IHfuel h' (t :: acc) Hh' HJh') as (out & Hout & Pout & Sout).
+      { rewrite turns_cons_msg in Ht. lia. }
+      exists (QMsg t o i :: out). split; [|split].
+      * rewrite Hout. simpl. rewrite <- app_assoc. reflexivity.
+      * eapply perm_trans; [apply perm_skip, Pout|].
+        eapply perm_trans; [|apply Permutation_sym, pending_perm, Perm]. apply Permutation_refl.
+      * constructor; auto.
+        eapply Permutation_Forall; [apply Permutation_sym, Pout|].
+        apply Forall_forall. intros y Hy. unfold pending in Hy. apply in_flat_map in Hy.
+        destruct Hy as (z & Hz & Hy).
+        rewrite Forall_forall in Hmin. specialize (Hmin z Hz).
+        destruct z as [c|t' o' i'].
+        -- eapply J_safe; eauto.
+        -- destruct Hy as [<-|[]]. exact Hmin.
+  - apply heappop_none in E. subst h.
+    rewrite sk_loop_none by (cbn [q_pop]; reflexivity).
+    exists []. rewrite app_nil_r. repeat split; constructor.
+Qed.
+
+(* from the queue SeekingReader.iter_messages builds *)
+Theorem sk_heap_spec cis fuel :
+  J (map QChunk cis) -> (turns (map QChunk cis) < fuel)%nat ->
+  exists out,
+    sk_loop fuel file validate su flt (fold_left q_push (map QChunk cis) (QHeap rev_ [])) [] = (q_triples out, EStop) /\
+    Permutation out (pending (map QChunk cis)) /\ StronglySorted R out.
+Proof.
+  intros HJ Hf. rewrite fold_push_heap.
+  set (h := push_all (q_lt rev_) q_dflt [] (map QChunk cis)).
+  assert (Perm : Permutation h (map QChunk cis)).
+  { pose proof (push_all_perm (q_lt rev_) q_dflt (map QChunk cis) []) as H. rewrite app_nil_r in H. exact H. }
+  assert (Hh : hp h).
+  { apply (push_all_heap (q_lt rev_) q_dflt (fun a => In a (map QChunk cis)) R
+             (fun a => J_refl _ a HJ) (fun a b c => J_trans _ a b c HJ)
+             (fun a b => J_lt _ a b HJ) (fun a b => J_nlt _ a b HJ)); auto.
+    - apply all_in.
+    - apply (heap_nil q_dflt R). }
+  destruct (loop_spec fuel h [] Hh) as (out & Hout & Pout & Sout).
+  - eapply J_perm; [apply Permutation_sym, Perm|exact HJ].
+  - rewrite (turns_perm _ _ Perm). exact Hf.
+  - exists out. split; [exact Hout|]. split; [|exact Sout].
+    eapply perm_trans; [exact Pout|]. apply pending_perm, Perm.
+Qed.
+End Loop.
+
+(* ---- instances ---- *)
+Definition chunks_of (l : list qitem) : list chunkindex :=
+  flat_map (fun x => match x with QChunk c => [c] | QMsg _ _ _ => [] end) l.
+
+Lemma chunks_of_msgs its : Forall is_msg its -> chunks_of its = [].
+Proof. induction 1 as [|x its Hx _ IH]; [reflexivity|]. destruct x; [destruct Hx|exact IH]. Qed.
+
+Lemma chunks_of_map cis : chunks_of (map QChunk cis) = cis.
+Proof. induction cis as [|c cis IH]; simpl; congruence. Qed.
+
+Lemma in_chunks_of c l : In (QChunk c) l <-> In c (chunks_of l).
+Proof.
+  unfold chunks_of. rewrite in_flat_map. split.
+  - intros H. exists (QChunk c). split; simpl; auto.
+  - intros (x & Hx & Hc). destruct x as [c0|]; [destruct Hc as [<-|[]]; exact Hx|destruct Hc].
+Qed.
+
+Lemma in_msgs_not_chunk c its : Forall is_msg its -> ~ In (QChunk c) its.
+Proof. intros H Hc. rewrite Forall_forall in H. exact (H _ Hc). Qed.
+
+Lemma NoDup_map_inj {A B} (f : A -> B) l x y :
+  NoDup (map f l) -> In x l -> In y l -> f x = f y -> x = y.
+Proof.
+  induction l as [|a l IH]; intros ND Hx Hy E; [destruct Hx|].
+  simpl in ND. apply NoDup_cons_iff in ND. destruct ND as (Na & ND).
+  destruct Hx as [->|Hx], Hy as [->|Hy]; auto.
+  - exfalso. apply Na. rewrite E. apply in_map, Hy.
+  - exfalso. apply Na. rewrite <- E. apply in_map, Hx.
+Qed.
+
+Definition t_le (r : bool) (a b : triple) : Prop := if r then (t_log b <= t_log a)%N else (t_log a <= t_log b)%N.
+
+Lemma sorted_triples r (R : qitem -> qitem -> Prop) out :
+  (forall a b, R a b -> log_le r a b) ->
+  StronglySorted R out -> StronglySorted (t_le r) (q_triples out).
+Proof.
+  intros HR. induction 1 as [|x l Hs IH Hx]; [constructor|].
+  destruct x as [c|t o i]; [exact IH|].
+  change (q_triples (QMsg t o i :: l)) with (t :: q_triples l). constructor; [exact IH|].
+  apply Forall_forall. intros t' Ht'. unfold q_triples in Ht'. apply in_flat_map in Ht'.
+  destruct Ht' as (y & Hy & Ht'). rewrite Forall_forall in Hx. specialize (Hx y Hy). apply HR in Hx.
+  destruct y as [c|t2 o2 i2]; [destruct Ht'|]. destruct Ht' as [<-|[]].
+  unfold log_le, t_le in *. destruct r; exact Hx.
+Qed.
+
+Section Instances.
+Variable file : bytes.
+Variable validate : bool.
+Variable su : summary.
+Variable flt : mfilter.
+Variable rev_ : bool.
+
+Notation items c := (chunk_items file validate su flt c).
+Notation pend1' := (pend1 file validate su flt).
+
+(* the chunk reads without error and its index time range is sound for the direction read:
+   forward  message_start_time <= log time of every selected message,
+   reverse  log time of every selected message <= message_end_time *)
+Definition chunk_sound (c : chunkindex) : Prop :=
+  exists its, items c = Some its /\ Forall (fun m => log_le rev_ (QChunk c) m) its.
+
+(* every selected message of every chunk, chunk by chunk in the order of the list *)
+Definition all_items (cis : list chunkindex) : list qitem :=
+  flat_map (fun c => match items c with Some its => its | None => [] end) cis.
+
+Lemma pending_chunks cis : pending file validate su flt (map QChunk cis) = all_items cis.
+Proof. unfold pending, all_items. rewrite flat_map_concat_map, map_map, <- flat_map_concat_map. reflexivity. Qed.
+
+Definition total_turns (cis : list chunkindex) : nat := (length cis + length (all_items cis))%nat.
+
+Lemma turns_chunks cis : turns file validate su flt (map QChunk cis) = total_turns cis.
+Proof.
+  unfold total_turns, all_items. induction cis as [|c cis IH]; [reflexivity|].
+  change (map QChunk (c :: cis)) with (QChunk c :: map QChunk cis).
+  unfold turns in *. cbn [flat_map expand1]. simpl. rewrite !app_length, IH. lia.
+Qed.
+
+(* -- 1: log time order, no distinctness assumption -- *)
+Definition J1 (L : list qitem) : Prop := forall c, In (QChunk c) L -> chunk_sound c.
+
+Theorem sk_log_sorted cis fuel :
+  (forall c, In c cis -> chunk_sound c) ->
+  (total_turns cis < fuel)%nat ->
+  exists res,
+    sk_loop fuel file validate su flt (fold_left q_push (map QChunk cis) (QHeap rev_ [])) [] = (res, EStop) /\
+    Permutation res (q_triples (all_items cis)) /\
+    StronglySorted (t_le rev_) res.
+Proof.
+  intros Hs Hf.
+  destruct (sk_heap_spec file validate su flt rev_ (log_le rev_) J1) with (cis := cis) (fuel := fuel)
+    as (out & Hout & Pout & Sout).
+  - intros L L' HP HJ c Hc. apply HJ. eapply Permutation_in; [apply Permutation_sym, HP|exact Hc].
+  - intros x L HJ c Hc. apply HJ. right; exact Hc.
+  - intros c L HJ. destruct (HJ c (or_introl eq_refl)) as (its & Hits & Hsound).
+    exists its. split; [exact Hits|]. intros c' Hc'. apply in_app_or in Hc'. destruct Hc' as [Hc'|Hc'].
+    + exfalso. eapply in_msgs_not_chunk; [eapply chunk_items_msgs; eauto|exact Hc'].
+    + apply HJ. right; exact Hc'.
+  - intros; apply log_le_refl.
+  - intros; eapply log_le_trans; eauto.
+  - intros; apply q_lt_log_le; auto.
+  - intros; apply q_nlt_log_le; auto.
+  - intros t o i L c m HJ Hc Hm Hx.
+    destruct (HJ c (or_intror Hc)) as (its & Hits & Hsound).
+    cbn [pend1] in Hm. rewrite Hits in Hm. rewrite Forall_forall in Hsound.
+    eapply log_le_trans; [exact Hx|]. apply Hsound, Hm.
+  - intros c Hc. apply in_map_iff in Hc. destruct Hc as (c' & E & Hc'). inversion E; subst. auto.
+  - rewrite turns_chunks. exact Hf.
+  - exists (q_triples out). split; [exact Hout|]. split.
+    + rewrite <- pending_chunks. apply Permutation_flat_map, Pout.
+    + eapply sorted_triples; [|exact Sout]. auto.
+Qed.
+
+(* -- 2: the full order, ties included -- *)
+Variable cis : list chunkindex.
+Hypothesis G1 : NoDup (map ci_offset cis).
+Hypothesis G2 : forall c, In c cis -> chunk_sound c.
+Hypothesis G3 : forall c c', In c cis -> In c' cis -> q_tie rev_ (QChunk c) (QChunk c') -> c = c'.
+Hypothesis G4 : forall c c' m, In c cis -> In c' cis -> c <> c' -> In m (pend1' (QChunk c')) ->
+                ~ q_tie rev_ (QChunk c) m.
+
+Definition J2 (L : list qitem) : Prop :=
+  (forall c, In (QChunk c) L -> In c cis) /\
+  NoDup (map ci_offset (chunks_of L)) /\
+  (forall t o i, In (QMsg t o i) L ->
+     exists c', In c' cis /\ o = ci_offset c' /\ In (QMsg t o i) (pend1' (QChunk c')) /\
+                forall c, In (QChunk c) L -> ci_offset c <> o).
+
+Lemma J2_perm L L' : Permutation L L' -> J2 L -> J2 L'.
+Proof.
+  intros HP (A & B & C). pose proof (Permutation_sym HP) as HP'. repeat split.
+  - intros c Hc. apply A. eapply Permutation_in; eauto.
+  - eapply Permutation_NoDup; [|exact B]. apply Permutation_map. unfold chunks_of. apply Permutation_flat_map, HP.
+  - intros t o i Hm. destruct (C t o i) as (c' & H1 & H2 & H3 & H4); [eapply Permutation_in; eauto|].
+    exists c'. repeat split; auto. intros c Hc. apply H4. eapply Permutation_in; eauto.
+Qed.
+
+Lemma J2_pop x L : J2 (x :: L) -> J2 L.
+Proof.
+  intros (A & B & C). repeat split.
+  - intros c Hc. apply A. right; auto.
+  - destruct x; simpl in B; auto. apply NoDup_cons_iff in B. apply B.
+  - intros t o i Hm. destruct (C t o i) as (c' & H1 & H2 & H3 & H4); [right; auto|].
+    exists c'. repeat split; auto. intros c Hc. apply H4. right; auto.
+Qed.
+
+Lemma J2_chunk c L : J2 (QChunk c :: L) -> exists its, items c = Some its /\ J2 (its ++ L).
+Proof.
+  intros (A & B & C).
+  assert (Hc : In c cis) by (apply A; left; reflexivity).
+  destruct (G2 c Hc) as (its & Hits & Hsound). exists its. split; [exact Hits|].
+  pose proof (chunk_items_msgs _ _ _ _ _ _ Hits) as Hmsgs.
+  simpl in B. apply NoDup_cons_iff in B. destruct B as (Bc & B).
+  assert (Hch : forall c1, In (QChunk c1) (its ++ L) -> In (QChunk c1) L).
+  { intros c1 H1. apply in_app_or in H1. destruct H1 as [H1|H1]; auto.
+    exfalso. eapply in_msgs_not_chunk; eauto. }
+  repeat split.
+  - intros c1 H1. apply A. right. auto.
+  - unfold chunks_of. rewrite flat_map_app. fold (chunks_of its). fold (chunks_of L).
+    rewrite chunks_of_msgs by auto. exact B.
+  - intros t o i Hm. apply in_app_or in Hm. destruct Hm as [Hm|Hm].
+    + destruct (chunk_items_shape _ _ _ _ _ _ _ Hits Hm) as (t' & j & E). inversion E; subst.
+      exists c. repeat split; auto.
+      * cbn [pend1]. rewrite Hits. exact Hm.
+      * intros c1 H1 E1. apply Hch in H1. apply Bc. rewrite <- E1.
+        apply in_map. apply in_chunks_of. exact H1.
+    + destruct (C t o i) as (c' & H1 & H2 & H3 & H4); [right; auto|].
+      exists c'. repeat split; auto. intros c1 Hc1. apply H4. right. auto.
+Qed.
+
+Lemma J2_distinct L : J2 L -> q_distinct rev_ L.
+Proof.
+  intros (A & B & C).
+  assert (CM : forall c t o i, In (QChunk c) L -> In (QMsg t o i) L -> ~ q_tie rev_ (QChunk c) (QMsg t o i)).
+  { intros c t o i Hc Hm. destruct (C t o i Hm) as (c' & H1 & H2 & H3 & H4).
+    apply G4 with (c' := c'); auto. intros ->. exact (H4 c' Hc (eq_sym H2)). }
+  intros x y Hx Hy T. destruct x as [c|t o i], y as [c2|t2 o2 i2].
+  - f_equal. apply G3; auto.
+  - exfalso. eapply CM; eauto.
+  - exfalso. apply q_tie_sym in T. eapply CM; eauto.
+  - destruct (C t o i Hx) as (c' & H1 & H2 & H3 & _).
+    destruct (C t2 o2 i2 Hy) as (c2' & K1 & K2 & K3 & _).
+    apply q_tie_msgs in T. destruct T as (_ & To & Ti).
+    assert (c' = c2') by (apply (NoDup_map_inj ci_offset cis c' c2' G1 H1 K1); congruence). subst c2'.
+    destruct (G2 c' H1) as (its & Hits & _). cbn [pend1] in H3, K3. rewrite Hits in H3, K3.
+    eapply chunk_items_idx_inj; eauto.
+Qed.
+
+Lemma q_safe c t o i tm j :
+  log_le rev_ (QChunk c) (QMsg tm (ci_offset c) j) -> ci_offset c <> o ->
+  q_lt rev_ (QChunk c) (QMsg t o i) = false ->
+  q_lt rev_ (QMsg tm (ci_offset c) j) (QMsg t o i) = false.
+Proof.
+  unfold log_le. destruct rev_; unfold q_lt, q_cmp, q_pos, q_log; intros H1 H2 H3; n_cases; try lia; try congruence.
+Qed.
+
+Theorem sk_full_order fuel :
+  (total_turns cis < fuel)%nat ->
+  exists out,
+    sk_loop fuel file validate su flt (fold_left q_push (map QChunk cis) (QHeap rev_ [])) [] = (q_triples out, EStop) /\
+    Permutation out (all_items cis) /\
+    StronglySorted (fun a b => q_lt rev_ b a = false) out.
+Proof.
+  intros Hf.
+  destruct (sk_heap_spec file validate su flt rev_ (fun a b => q_lt rev_ b a = false) J2)
+    with (cis := cis) (fuel := fuel) as (out & Hout & Pout & Sout).
+  - exact J2_perm.
+  - exact J2_pop.
+  - exact J2_chunk.
+  - intros L a HJ Ha. apply q_lt_irrefl.
+  - intros L a b c HJ Ha Hb Hc. apply (swo_trans (q_lt rev_) L (q_lt_swo rev_ L (J2_distinct L HJ))); auto.
+  - intros L a b HJ Ha Hb. apply q_lt_asym.
+  - intros; auto.
+  - intros t o i L c m HJ Hc Hm Hx.
+    destruct HJ as (A & B & C).
+    assert (Hcc : In c cis) by (apply A; right; auto).
+    destruct (G2 c Hcc) as (its & Hits & Hsound).
+    cbn [pend1] in Hm. rewrite Hits in Hm.
+    destruct (chunk_items_shape _ _ _ _ _ _ _ Hits Hm) as (tm & j & ->).
+    rewrite Forall_forall in Hsound. specialize (Hsound _ Hm).
+    destruct (C t o i (or_introl eq_refl)) as (_ & _ & _ & _ & H4).
+    apply q_safe; auto. apply H4. right; auto.
+  - repeat split.
+    + intros c Hc. apply in_map_iff in Hc. destruct Hc as (c' & E & Hc'). inversion E; subst. auto.
+    + rewrite chunks_of_map. exact G1.
+    + intros t o i Hm. apply in_map_iff in Hm. destruct Hm as (c' & E & _). discriminate.
+  - rewrite turns_chunks. exact Hf.
+  - exists out. rewrite <- pending_chunks. auto.
+Qed.
+End Instances.
+
+(* ---- the statements for the two directions ---- *)
+Lemma all_items_msgs file validate su flt cis : Forall is_msg (all_items file validate su flt cis).
+Proof.
+  apply Forall_forall. intros x Hx. unfold all_items in Hx. apply in_flat_map in Hx.
+  destruct Hx as (c & _ & Hx). destruct (chunk_items file validate su flt c) as [its|] eqn:E; [|destruct Hx].
+  destruct (chunk_items_shape _ _ _ _ _ _ _ E Hx) as (t & j & ->). exact I.
+Qed.
+
+(* the meaning of "not after" on messages: lexicographic on (log time, chunk offset, index) *)
+Definition msg_key_le (r : bool) (a b : qitem) : Prop :=
+  match a, b with
+  | QMsg t1 o1 i1, QMsg t2 o2 i2 =>
+    if r then (t_log t2 < t_log t1 \/ (t_log t1 = t_log t2 /\ (o2 < o1 \/ (o1 = o2 /\ i2 <= i1))))%N
+    else (t_log t1 < t_log t2 \/ (t_log t1 = t_log t2 /\ (o1 < o2 \/ (o1 = o2 /\ i1 <= i2))))%N
+  | _, _ => True
+  end.
+
+Lemma q_le_msg_key r a b : q_lt r b a = false -> msg_key_le r a b.
+Proof.
+  destruct a as [|t1 o1 i1], b as [|t2 o2 i2]; try exact (fun _ => I).
+  unfold msg_key_le. destruct r; q_unfold; intros H; n_cases; try lia; try congruence.
+Qed.
+
+Lemma StronglySorted_impl {A} (R1 R2 : A -> A -> Prop) l :
+  (forall a b, R1 a b -> R2 a b) -> StronglySorted R1 l -> StronglySorted R2 l.
+Proof.
+  intros H. induction 1; constructor; auto.
+  eapply Forall_impl; [|eassumption]. intros; apply H; auto.
+Qed.
+
+(* ascending: distinct chunk offsets and sound start times are all that is needed *)
+Theorem sk_ascending file validate su flt cis fuel :
+  NoDup (map ci_offset cis) ->
+  (forall c, In c cis -> chunk_sound file validate su flt false c) ->
+  (total_turns file validate su flt cis < fuel)%nat ->
+  exists out,
+    sk_loop fuel file validate su flt (fold_left q_push (map QChunk cis) (QHeap false [])) [] = (q_triples out, EStop) /\
+    Permutation out (all_items file validate su flt cis) /\
+    StronglySorted (fun a b => q_lt false b a = false) out.
+Proof.
+  intros G1 G2 Hf. apply sk_full_order; auto.
+  - intros c c' Hc Hc' T. apply q_tie_chunks in T. destruct T as (_ & T).
+    eapply NoDup_map_inj; eauto.
+  - intros c c' m Hc Hc' Hne Hm T. cbn [pend1] in Hm.
+    destruct (chunk_items file validate su flt c') as [its|] eqn:E; [|destruct Hm].
+    destruct (chunk_items_shape _ _ _ _ _ _ _ E Hm) as (t & j & ->).
+    apply q_tie_chunk_msg in T. destruct T as (_ & T). apply Hne.
+    eapply NoDup_map_inj; eauto.
+Qed.
+
+(* descending: the queue compares a chunk index by the END of its record (offset + length) but a
+   message by the START of its chunk, so two more conditions are needed for the tie order *)
+Definition rev_chunks_distinct (cis : list chunkindex) : Prop :=
+  forall c c', In c cis -> In c' cis -> ci_end c = ci_end c' ->
+               ci_offset c + ci_length c = ci_offset c' + ci_length c' -> c = c'.
+Definition rev_no_adjacent_tie file validate su flt (cis : list chunkindex) : Prop :=
+  forall c c' t j, In c cis -> In c' cis -> c <> c' ->
+    In (QMsg t (ci_offset c') j) (all_items file validate su flt [c']) ->
+    ~ (ci_end c = t_log t /\ ci_offset c + ci_length c = ci_offset c').
+
+Theorem sk_descending file validate su flt cis fuel :
+  NoDup (map ci_offset cis) ->
+  (forall c, In c cis -> chunk_sound file validate su flt true c) ->
+  rev_chunks_distinct cis ->
+  rev_no_adjacent_tie file validate su flt cis ->
+  (total_turns file validate su flt cis < fuel)%nat ->
+  exists out,
+    sk_loop fuel file validate su flt (fold_left q_push (map QChunk cis) (QHeap true [])) [] = (q_triples out, EStop) /\
+    Permutation out (all_items file validate su flt cis) /\
+    StronglySorted (fun a b => q_lt true b a = false) out.
+Proof.
+  intros G1 G2 G3 G4 Hf. apply sk_full_order; auto.
+  - intros c c' Hc Hc' T. apply q_tie_chunks in T. destruct T as (T1 & T2). apply G3; auto.
+  - intros c c' m Hc Hc' Hne Hm T. cbn [pend1] in Hm.
+    destruct (chunk_items file validate su flt c') as [its|] eqn:E; [|destruct Hm].
+    destruct (chunk_items_shape _ _ _ _ _ _ _ E Hm) as (t & j & ->).
+    apply q_tie_chunk_msg in T. apply (G4 c c' t j); auto.
+    unfold all_items. cbn [flat_map]. rewrite E, app_nil_r. exact Hm.
+Qed.
+
+(* ---- file order: the FIFO queue ---- *)
+Lemma fifo_loop_msgs file validate su flt msgs : forall fuel acc,
+  Forall is_msg msgs -> (length msgs < fuel)%nat ->
+  sk_loop fuel file validate su flt (QFifo msgs) acc = (rev acc ++ q_triples msgs, EStop).
+Proof.
+  induction msgs as [|x msgs IH]; intros fuel acc Hm Hf; (destruct fuel; [simpl in Hf; lia|]).
+  - rewrite sk_loop_none by reflexivity. rewrite app_nil_r. reflexivity.
+  - inversion Hm as [|? ? Hx Hm']; subst. destruct x as [c|t o i]; [destruct Hx|].
+    rewrite (sk_loop_msg fuel file validate su flt (QFifo (QMsg t o i :: msgs)) (QFifo msgs) acc t o i) by reflexivity.
+    rewrite IH by (auto; simpl in Hf; lia). simpl. rewrite <- app_assoc. reflexivity.
+Qed.
+
+Lemma fifo_loop file validate su flt cs : forall msgs fuel acc,
+  Forall is_msg msgs ->
+  (forall c, In c cs -> exists its, chunk_items file validate su flt c = Some its) ->
+  (length cs + length msgs + length (all_items file validate su flt cs) < fuel)%nat ->
+  sk_loop fuel file validate su flt (QFifo (map QChunk cs ++ msgs)) acc
+  = (rev acc ++ q_triples (msgs ++ all_items file validate su flt cs), EStop).
+Proof.
+  induction cs as [|c cs IH]; intros msgs fuel acc Hm Hc Hf.
+  - simpl. rewrite app_nil_r. apply fifo_loop_msgs; auto. simpl in Hf. lia.
+  - destruct fuel; [lia|].
+    destruct (Hc c (or_introl eq_refl)) as (its & Hits).
+    change (map QChunk (c :: cs) ++ msgs) with (QChunk c :: (map QChunk cs ++ msgs)).
+    rewrite (sk_loop_chunk fuel file validate su flt _ (QFifo (map QChunk cs ++ msgs)) acc c its) by (auto; reflexivity).
+    rewrite fold_push_fifo, <- app_assoc.
+    assert (E : all_items file validate su flt (c :: cs) = its ++ all_items file validate su flt cs).
+    { unfold all_items. cbn [flat_map]. rewrite Hits. reflexivity. }
+    rewrite E in *. rewrite IH.
+    + rewrite <- app_assoc. reflexivity.
+    + apply Forall_app. split; auto. eapply chunk_items_msgs; eauto.
+    + intros c' Hc'. apply Hc. right; auto.
+    + rewrite !app_length in *. simpl in Hf. lia.
+Qed.
+
+Theorem sk_file_order file validate su flt cis fuel :
+  (forall c, In c cis -> exists its, chunk_items file validate su flt c = Some its) ->
+  (total_turns file validate su flt cis < fuel)%nat ->
+  sk_loop fuel file validate su flt (fold_left q_push (map QChunk cis) (QFifo [])) []
+  = (q_triples (all_items file validate su flt cis), EStop).
+Proof.
+  intros Hc Hf. rewrite fold_push_fifo. simpl.
+  pose proof (fifo_loop file validate su flt cis [] fuel [] (Forall_nil _) Hc) as H.
+  rewrite app_nil_r in H. apply H. unfold total_turns in Hf. simpl. lia.
+Qed.
+
+(* ---- concrete material for the examples ---- *)
+Definition ex_chan : channel := {| c_id := 1; c_schema := 0; c_topic := [x74]; c_menc := []; c_meta := [] |}.
+Definition ex_su : summary :=
+  {| su_stats := None; su_schemas := []; su_channels := [(1%N, ex_chan)]; su_chunks := []; su_atts := []; su_mds := [] |}.
+Definition ex_flt : mfilter := {| mf_topics := None; mf_start := None; mf_end := None |}.
+Definition ex_msg (seq log : N) : message := {| m_chan := 1; m_seq := seq; m_log := log; m_pub := 0; m_data := [] |}.
+Definition ex_tr (seq log : N) : triple := (None, ex_chan, ex_msg seq log).
+Definition ex_chunk (st en : N) (msgs : list message) : bytes :=
+  let recs := concat (map (fun m => frame OpMessage (enc_message m)) msgs) in
+  frame OpChunk (enc_chunk {| k_start := st; k_end := en; k_usize := blen recs; k_crc := 0; k_comp := []; k_records := recs |}).
+Definition ex_ci (st en off len : N) : chunkindex :=
+  {| ci_start := st; ci_end := en; ci_offset := off; ci_length := len; ci_mioffsets := []; ci_milength := 0;
+     ci_comp := []; ci_csize := 0; ci_usize := 0 |}.
+
+(* three chunks whose time ranges overlap; (seq, log time) *)
+Definition ex_c1 := ex_chunk 5 10 [ex_msg 0 5; ex_msg 1 7; ex_msg 2 10].
+Definition ex_c2 := ex_chunk 10 12 [ex_msg 3 10; ex_msg 4 10; ex_msg 5 10; ex_msg 6 12].
+Definition ex_c3 := ex_chunk 3 10 [ex_msg 7 3; ex_msg 8 10].
+Definition ex_file : bytes := ex_c1 ++ ex_c2 ++ ex_c3.
+Definition ex_cis : list chunkindex :=
+  [ex_ci 5 10 0 (blen ex_c1); ex_ci 10 12 (blen ex_c1) (blen ex_c2); ex_ci 3 10 (blen ex_c1 + blen ex_c2) (blen ex_c3)].
+Definition ex_queue (log_order rev_ : bool) : queue :=
+  fold_left q_push (map QChunk ex_cis) (if log_order then QHeap rev_ [] else QFifo []).
+Definition ex_seqs (r : list triple * ending) : list (N * N) * ending :=
+  (map (fun t : triple => (m_log (snd t), m_seq (snd t))) (fst r), snd r).
+
+(* seven queue items whose log times tie in groups; they are pairwise distinct for the order *)
+Definition ex_heap_items : list qitem :=
+  [QMsg (ex_tr 0 10) 100 2; QChunk (ex_ci 10 20 300 50); QMsg (ex_tr 1 10) 100 0; QMsg (ex_tr 2 7) 500 9;
+   QMsg (ex_tr 3 10) 40 5; QChunk (ex_ci 7 30 200 10); QMsg (ex_tr 4 10) 100 1].
+Definition ex_heap_sorted : list qitem :=
+  [QChunk (ex_ci 7 30 200 10); QMsg (ex_tr 2 7) 500 9; QMsg (ex_tr 3 10) 40 5; QMsg (ex_tr 1 10) 100 0;
+   QMsg (ex_tr 4 10) 100 1; QMsg (ex_tr 0 10) 100 2; QChunk (ex_ci 10 20 300 50)].
+
+Example ex_heap_run :
+  drain (q_lt false) q_dflt 7 (push_all (q_lt false) q_dflt [] ex_heap_items) = ex_heap_sorted.
+Proof. vm_compute. reflexivity. Qed.
+
+Ltac in_cases H := simpl in H; repeat (destruct H as [<-|H]; [|]); try destruct H.
+
+Example ex_heap_distinct : q_distinct false ex_heap_items.
+Proof.
+  intros x y Hx Hy T. apply q_tie_iff in T. destruct T as (T1 & T2).
+  in_cases Hx; in_cases Hy; try reflexivity; exfalso;
+    vm_compute in T1; vm_compute in T2; try discriminate T1; discriminate T2.
+Qed.
+
+Example ex_heap_sto : sto_on (q_lt false) ex_heap_items.
+Proof. apply q_lt_sto, ex_heap_distinct. Qed.
+
+(* B: without distinctness "not after" is not transitive: a chunk index ties with every message
+   that has its position and log time, whatever the message's index *)
+Example q_lt_not_weak :
+  let a := QMsg (ex_tr 0 10) 100 3 in
+  let b := QChunk (ex_ci 10 20 100 50) in
+  let c := QMsg (ex_tr 1 10) 100 1 in
+  q_lt false b a = false /\ q_lt false c b = false /\ q_lt false c a = true.
+Proof. vm_compute. auto. Qed.
+
+(* and then heapq need not return a minimum: [c] comes out after [a] although c < a *)
+Example heap_needs_order :
+  let a := QMsg (ex_tr 0 10) 100 3 in
+  let b := QChunk (ex_ci 10 20 100 50) in
+  let c := QMsg (ex_tr 1 10) 100 1 in
+  let x := QChunk (ex_ci 10 20 900 50) in
+  drain (q_lt false) q_dflt 4 (push_all (q_lt false) q_dflt [] [a; b; x; c]) = [a; b; c; x]
+  /\ q_lt false c a = true.
+Proof. vm_compute. auto. Qed.
+
+(* the three chunk file *)
+Example ex_ascending_run :
+  ex_seqs (sk_loop 100 ex_file true ex_su ex_flt (ex_queue true false) [])
+  = ([(3, 7); (5, 0); (7, 1); (10, 2); (10, 3); (10, 4); (10, 5); (10, 8); (12, 6)]%N, EStop).
+Proof. vm_compute. reflexivity. Qed.
+
+Example ex_file_order_run :
+  ex_seqs (sk_loop 100 ex_file true ex_su ex_flt (ex_queue false false) [])
+  = ([(5, 0); (7, 1); (10, 2); (10, 3); (10, 4); (10, 5); (12, 6); (3, 7); (10, 8)]%N, EStop).
+Proof. vm_compute. reflexivity. Qed.
+
+(* FINDING.  Read in reverse, the chunks of ex_file are adjacent (no message index records between
+   them), chunk 1 ends at log time 10 and chunk 2 holds messages 3, 4, 5 with log time 10: the chunk
+   index of chunk 1 ties with each of them, and 3 is returned before 4 - equal log times do NOT come out
+   in descending (chunk offset, index) order.  The real package returns the same sequence. *)
+Example ex_descending_run :
+  ex_seqs (sk_loop 100 ex_file true ex_su ex_flt (ex_queue true true) [])
+  = ([(12, 6); (10, 8); (10, 5); (10, 3); (10, 4); (10, 2); (7, 1); (5, 0); (3, 7)]%N, EStop).
+Proof. vm_compute. reflexivity. Qed.
+
+Example ex_adjacent_tie : ~ rev_no_adjacent_tie ex_file true ex_su ex_flt ex_cis.
+Proof.
+  intros H.
+  apply (H (ex_ci 5 10 0 (blen ex_c1)) (ex_ci 10 12 (blen ex_c1) (blen ex_c2)) (ex_tr 3 10) 0%N).
+  - left; reflexivity.
+  - right; left; reflexivity.
+  - intros E. apply (f_equal ci_start) in E. vm_compute in E. discriminate E.
+  - vm_compute. left. reflexivity.
+  - vm_compute. auto.
+Qed.
+
+(* hypotheses of the theorems on the example *)
+Example ex_nodup : NoDup (map ci_offset ex_cis).
+Proof.
+  vm_compute. repeat constructor; simpl; intros H; repeat (destruct H as [H|H]; try discriminate H); auto.
+Qed.
+
+Example ex_sound r : forall c, In c ex_cis -> chunk_sound ex_file true ex_su ex_flt r c.
+Proof.
+  intros c Hc. in_cases Hc; (eexists; split; [vm_compute; reflexivity|]);
+    repeat constructor; unfold log_le; destruct r; cbn; lia.
+Qed.
+
+Example ex_fuel : (total_turns ex_file true ex_su ex_flt ex_cis < 100)%nat.
+Proof. vm_compute. lia. Qed.
+
+Example ex_readable : forall c, In c ex_cis -> exists its, chunk_items ex_file true ex_su ex_flt c = Some its.
+Proof. intros c Hc. destruct (ex_sound false c Hc) as (its & H & _). eauto. Qed.
+
+(* the same chunks with one byte between them: now the reverse theorem applies *)
+Definition ex_file_gap : bytes := ex_c1 ++ [x00] ++ ex_c2 ++ [x00] ++ ex_c3.
+Definition ex_cis_gap : list chunkindex :=
+  [ex_ci 5 10 0 (blen ex_c1); ex_ci 10 12 (blen ex_c1 + 1) (blen ex_c2);
+   ex_ci 3 10 (blen ex_c1 + blen ex_c2 + 2) (blen ex_c3)].
+
+Example ex_gap_nodup : NoDup (map ci_offset ex_cis_gap).
+Proof.
+  vm_compute. repeat constructor; simpl; intros H; repeat (destruct H as [H|H]; try discriminate H); auto.
+Qed.
+
+Example ex_gap_sound : forall c, In c ex_cis_gap -> chunk_sound ex_file_gap true ex_su ex_flt true c.
+Proof.
+  intros c Hc. in_cases Hc; (eexists; split; [vm_compute; reflexivity|]);
+    repeat constructor; unfold log_le; cbn; lia.
+Qed.
+
+Example ex_gap_distinct : rev_chunks_distinct ex_cis_gap.
+Proof.
+  intros c c' Hc Hc' _ E. in_cases Hc; in_cases Hc'; try reflexivity; vm_compute in E; discriminate E.
+Qed.
+
+Example ex_gap_no_tie : rev_no_adjacent_tie ex_file_gap true ex_su ex_flt ex_cis_gap.
+Proof.
+  intros c c' t j Hc Hc' Hne _ (_ & E).
+  in_cases Hc; in_cases Hc'; try (apply Hne; reflexivity); vm_compute in E; discriminate E.
+Qed.
+
+Example ex_gap_fuel : (total_turns ex_file_gap true ex_su ex_flt ex_cis_gap < 100)%nat.
+Proof. vm_compute. lia. Qed.
+
+Example ex_gap_descending_run :
+  ex_seqs (sk_loop 100 ex_file_gap true ex_su ex_flt (fold_left q_push (map QChunk ex_cis_gap) (QHeap true [])) [])
+  = ([(12, 6); (10, 8); (10, 5); (10, 4); (10, 3); (10, 2); (7, 1); (5, 0); (3, 7)]%N, EStop).
+Proof. vm_compute. reflexivity. Qed.
+
+Example ex_heap_swo : swo_on (q_lt false) ex_heap_items.
+Proof. apply sto_swo, ex_heap_sto. Qed.
+
+Example ex_heap_is_heap : heap_lt (q_lt false) q_dflt (push_all (q_lt false) q_dflt [] ex_heap_items).
+Proof.
+  intros i Hi0 Hi.
+  do 7 (destruct i as [|i]; [try (exfalso; lia); vm_compute; reflexivity|]).
+  vm_compute in Hi. lia.
+Qed.
+
+Example ex_heap_incl : incl (push_all (q_lt false) q_dflt [] ex_heap_items) ex_heap_items.
+Proof.
+  intros x Hx. eapply Permutation_in; [|exact Hx].
+  pose proof (push_all_perm (q_lt false) q_dflt ex_heap_items []) as H. rewrite app_nil_r in H. exact H.
+Qed.
+
+(* ---- the top-level function reaches the loop with exactly this queue and fuel ---- *)
+Lemma sk_iter_messages_loop file validate flt log_order reverse su cis :
+  sk_get_summary file = POk (Some su) -> su_chunks su <> [] ->
+  negb log_order && reverse = false ->
+  chunks_matching su flt (su_chunks su) [] = POk cis ->
+  sk_iter_messages file validate flt log_order reverse =
+  sk_loop (2 * length file + length cis + 8) file validate su flt
+          (fold_left q_push (map QChunk cis) (if log_order then QHeap reverse [] else QFifo [])) [].
+Proof.
+  intros Hs Hne Hv Hc. unfold sk_iter_messages. rewrite Hs.
+  destruct (su_chunks su) as [|c0 cs] eqn:E; [contradiction|].
+  rewrite Hv, Hc. reflexivity.
+Qed.
+
+Lemma chunks_matching_sub su flt cs : forall acc r,
+  chunks_matching su flt cs acc = POk r ->
+  NoDup (map ci_offset (acc ++ cs)) ->
+  NoDup (map ci_offset r) /\ incl r (acc ++ cs).
+Proof.
+  induction cs as [|ci cs IH]; intros acc r H ND.
+  - simpl in H. inversion H; subst. rewrite app_nil_r in *. split; [exact ND|apply incl_refl].
+  - assert (Keep : forall r, chunks_matching su flt cs (acc ++ [ci]) = POk r ->
+                   NoDup (map ci_offset r) /\ incl r (acc ++ ci :: cs)).
+    { intros r0 H0. apply IH in H0.
+      - rewrite <- app_assoc in H0. exact H0.
+      - rewrite <- app_assoc. exact ND. }
+    assert (Drop : forall r, chunks_matching su flt cs acc = POk r ->
+                   NoDup (map ci_offset r) /\ incl r (acc ++ ci :: cs)).
+    { intros r0 H0. apply IH in H0.
+      - destruct H0 as (A & B). split; auto. intros x Hx. apply B in Hx.
+        apply in_app_or in Hx. apply in_or_app. destruct Hx; [left|right; right]; auto.
+      - rewrite map_app in *. simpl in ND. apply NoDup_remove_1 in ND. exact ND. }
+    cbn [chunks_matching] in H.
+    destruct (match mf_start flt with Some t => (ci_end ci <? t)%N | None => false end); [apply Drop, H|].
+    destruct (match mf_end flt with Some t => negb (ci_start ci <? t)%N | None => false end); [apply Drop, H|].
+    destruct (mf_topics flt) as [ts|]; [|apply Keep, H].
+    destruct (ci_mioffsets ci) as [|p l]; [apply Keep, H|].
+    destruct (any_topic 0 su ts (p :: l)) as [hit| |]; try discriminate H.
+    cbn [pbind] in H. destruct hit; [apply Keep, H|apply Drop, H].
+Qed.
+
+(* SeekingReader.iter_messages(log_time_order=True) on a file whose chunk indexes have distinct offsets *)
+Theorem sk_iter_messages_ascending file validate flt su cis :
+  sk_get_summary file = POk (Some su) -> su_chunks su <> [] ->
+  chunks_matching su flt (su_chunks su) [] = POk cis ->
+  NoDup (map ci_offset (su_chunks su)) ->
+  (forall c, In c cis -> chunk_sound file validate su flt false c) ->
+  (length (all_items file validate su flt cis) < 2 * length file + 8)%nat ->
+  exists out,
+    sk_iter_messages file validate flt true false = (q_triples out, EStop) /\
+    Permutation out (all_items file validate su flt cis) /\
+    StronglySorted (fun a b => q_lt false b a = false) out.
+Proof.
+  intros Hs Hne Hc ND Hsound Hf.
+  rewrite (sk_iter_messages_loop file validate flt true false su cis Hs Hne eq_refl Hc).
+  apply sk_ascending; auto.
+  - apply (chunks_matching_sub su flt (su_chunks su) [] cis Hc ND).
+  - unfold total_turns. lia.
+Qed.
